@@ -187,6 +187,47 @@ def shard_unary(arg):
     return acc
 
 
+def int_dtype_part():
+    """group elements stored in integer arrays (cube rotations x integer
+    scale x integer translation, e.g. loaded from an .npy file)"""
+    from evo.core import lie_algebra as lie
+    acc = Acc()
+    for k, R in enumerate(geom.rot24()):
+        for s in (1, 2, 5):
+            for dt in (np.int64, np.int32):
+                S = np.eye(4)
+                S[:3, :3] = s * R
+                S[:3, 3] = [4, -6, 8]
+                Si = S.astype(dt)
+                acc.count("evaluations")
+                acc.count("transitions", 4)
+                msgs = []
+                if not lie.is_sim3(Si):
+                    msgs.append("integer-typed Sim(3) element rejected")
+                if abs(lie.sim3_scale(Si) - s) > 1e-12 * s:
+                    msgs.append("sim3_scale of an integer matrix")
+                inv = lie.sim3_inverse(Si)
+                if not common.close(np.asarray(inv, dtype=float) @ S,
+                                    np.eye(4), 10):
+                    msgs.append("sim3_inverse of an integer-typed matrix "
+                                "(scale %d) is not its inverse" % s)
+                if s == 1:
+                    inv = lie.se3_inverse(Si)
+                    if not common.close(np.asarray(inv, dtype=float) @ S,
+                                        np.eye(4), 10):
+                        msgs.append("se3_inverse of an integer-typed matrix")
+                    rel = lie.relative_se3(Si, Si)
+                    if not common.close(rel, np.eye(4), 10):
+                        msgs.append("rel(A,A) of an integer-typed matrix")
+                if msgs:
+                    acc.violation("int-dtype", "cube rotation #%d, scale %d, "
+                                  "%s: %s" % (k, s, dt.__name__,
+                                              "; ".join(msgs)),
+                                  {"k": k, "s": s, "dtype": dt.__name__},
+                                  {"kind": "int-dtype"})
+    return acc
+
+
 def shard_logexp(arg):
     """log(exp v) = v for |v| < pi, rotation-equal at pi"""
     from evo.core import lie_algebra as lie
@@ -286,6 +327,7 @@ def run(ctx):
     acc = pmap_acc(ctx, __name__, "shard_unary",
                    [(seed, s) for s in shard(range(n), 32)])
     acc.merge(pmap_acc(ctx, __name__, "shard_logexp", [0]))
+    acc.merge(int_dtype_part())
     acc.merge(pmap_acc(ctx, __name__, "shard_pairs",
                        [(seed, s) for s in shard(range(n), 32)]))
     # triangle inequality over all triples, vectorised on the implementation's
@@ -330,6 +372,9 @@ def replay(part, case):
     if part == "unary":
         return check_unary(case["k"], rotations(case["seed"])[case["k"]],
                            Acc())
+    if part == "int-dtype":
+        return [v["msg"] for v in int_dtype_part().violations
+                if v["case"] == case]
     if part == "logexp":
         a = shard_logexp(0)
         return [v["msg"] for v in a.violations if v["case"] == case]
